@@ -168,6 +168,8 @@ def ref_single(text, cli_type, defaults, name_override=None, linked_part=False):
     if max_errors >= 1:
         raise Unspecified("as many errors as bases")     # nothing documented for a rate of 1 or more
     if non_n == 0:
+        if not eff["adapter_wildcards"]:
+            raise Unspecified("only N, wildcards switched off")     # N is then a literal character: nothing documented
         raise RefError("only N wildcards")      # rejected by the program with its own message (exit status 2)
     iupac = set("ABCDGHKMNRSTUVWXY")
     if eff["adapter_wildcards"] and not set(sequence) <= iupac:
